@@ -83,6 +83,8 @@ def floors(tier):
         "history:same-name-home": n,
         "history:package": n,
         "history:lib-path": 3 * n,
+        "history:isa-edited": max(1, n - 2),
+        "history:isa-inproc-edit": 2 * max(1, n - 2),
         "lib_warm_hit_confirmed": 2 * n,
         "set:lib_path_names": 3,
         "history:truncated": (6 if t else 5) * n,
@@ -390,6 +392,89 @@ def find_edit(cx, cold):
     return None
 
 
+def edit_isa_text(text, mnemonic):
+    """Every operand of the entries named ``mnemonic`` stops being a destination (a pointer bump then carries no dependency)."""
+    parts = re.split(r"(?m)^(?=\s*-\s*name:)", text)
+    n = 0
+    for i, e in enumerate(parts):
+        m = re.match(r"\s*-\s*name:\s*(.*)", e)
+        if not m:
+            continue
+        names = [x.strip().strip("'\"").lower() for x in m.group(1).split("#")[0].strip().strip("[]").split(",")]
+        if mnemonic in names and "destination: true" in e:
+            parts[i] = e.replace("destination: true", "destination: false")
+            n += 1
+    return "".join(parts), n
+
+
+def find_isa_edit(cx, cold):
+    """An edited ISA description whose cold reports differ from the original ones: (orig, edited, mnemonic, reports) or None."""
+    with open(cx.files[1][1]) as f:
+        orig = f.read()
+    cands = []
+    for k in cx.kernels:
+        for mn in kernel_mnemonics(k):
+            for v in (mn, mn[:-1] if cx.isa == "x86" and len(mn) > 2 else None, mn.split(".")[0] if "." in mn else None):
+                if v and v not in cands:
+                    cands.append(v)
+    cx.rng.shuffle(cands)
+    cands.sort(key=lambda v: 0 if v in ("add", "adds", "sub", "subs", "inc", "dec", "lea") else 1)  # loop counters show in the LCD list
+    tries = 0
+    for mn in cands:
+        text, n = edit_isa_text(orig, mn)
+        if not n:
+            continue
+        tries += 1
+        if tries > 6:
+            break
+        h = cx.new_home(copies=True)
+        write_private(os.path.join(cx.data_dir(h), cx.files[1][0] + ".yml"), text)
+        res = cx.run(h)
+        if len(res["reports"]) != len(cx.argvs) or any(r["rc"] != 0 for r in res["reports"]):
+            continue
+        if any(a["out"] != b["out"] for a, b in zip(res["reports"], cold)):
+            cx.R.count("isa_edit_found")
+            return orig, text, mn, res["reports"]
+    return None
+
+
+def isa_edit_histories(cx, cold):
+    """The ISA description is a model file like any other: edited between runs and while a process is alive."""
+    R = cx.R
+    found = find_isa_edit(cx, cold)
+    if not found:
+        R.count("isa_edit_not_found")
+        return
+    orig, edited, mn, cold_e = found
+    R.observe("edited_isa_mnemonics", "%s/%s" % (cx.isa, mn))
+    rel = cx.files[1][0] + ".yml"
+    # separate processes
+    h = cx.new_home(copies=True)
+    yml = os.path.join(cx.data_dir(h), rel)
+    write_private(yml, orig)
+    res = cx.run(h)
+    judge(cx, res, cold, "isa-edited", "before-edit")
+    write_private(yml, edited)
+    res = cx.run(h)
+    R.count("history:isa-edited")
+    judge(cx, res, cold_e, "isa-edited", "after-edit", diff_key="cache/stale-after-edit/isa-description")
+    write_private(yml, orig)
+    res = cx.run(h)
+    judge(cx, res, cold, "isa-edited", "after-revert", diff_key="cache/stale-after-edit/isa-description-revert")
+    # one process, edited between two rounds
+    for start in ("cold", "warm"):
+        h = cx.new_home(copies=True)
+        yml = os.path.join(cx.data_dir(h), rel)
+        write_private(yml, orig)
+        ed = os.path.join(cx.base, "edited-isa.yml")
+        write_private(ed, edited)
+        if start == "warm":
+            cx.run(h)
+        res = cx.run(h, runs=cx.argvs + [{"action": "copy", "src": ed, "dst": yml}] + cx.argvs)
+        R.count("history:isa-inproc-edit")
+        judge(cx, res, cold + cold_e, "isa-inproc-edit", "edit-between-rounds", variant=start, diff_key="cache/stale-after-edit/isa-description-in-process")
+
+
 # ----------------------------------------------------------------------------------------------------------------
 # history groups
 
@@ -587,6 +672,8 @@ def g_content(cx):
         res = cx.run(h, runs=cx.argvs + [{"action": "copy", "src": ed, "dst": yml}] + cx.argvs)
         R.count("history:inproc-edit")
         judge(cx, res, cold + cold_e, "inproc-edit", "edit-between-rounds", variant=start, diff_key="cache/stale-after-edit/in-process")
+    # ---- the ISA description edited
+    isa_edit_histories(cx, cold)
     # ---- a model given by path (library entry points, as tools embedding OSACA use them), file names a user may choose
     for fname, where in ((cx.model + ".user.yml", "data"), ("my-" + cx.model + ".v2.yml", "cache"), (cx.model + "_custom.yml", "data")):
         lib_path_history(cx, fname, where, orig, edited)
